@@ -152,6 +152,11 @@ func (x *Exec) callStatic(st *State, fr *Frame, fn *ssa.Function, bind []Val, cc
 			x.pushFrame(st, fn, cc.Args, bind, cc.Instr, prefix, fr.Depth+1)
 			return nil
 		}
+		if x.isGenerated(fn) {
+			if outs, ok := x.pbGetter(st, fn, cc); ok {
+				return outs
+			}
+		}
 		return x.havocCall(st, cc, "module function "+name+" (no contract, not inlinable)")
 	}
 	// generic library method fallbacks by method name
@@ -525,6 +530,21 @@ func (x *Exec) applyContract(st *State, fr *Frame, ct *Contract, fn *ssa.Functio
 	defer func() {
 		for _, v := range res {
 			x.boundReachable(st, v, 0)
+		}
+		// ghost storage replaced by the callee: its records exist below the new watermark
+		kinds := map[string]bool{}
+		for _, p := range x.contractModPrefixes(ct, cc.Common) {
+			if strings.HasPrefix(p, "St!rec!") {
+				kinds[strings.TrimPrefix(p, "St!rec!")] = true
+			} else if p == "St!" {
+				for _, k := range kindOfType {
+					kinds[k] = true
+				}
+			}
+		}
+		if len(kinds) > 0 {
+			wm := x.define(st, "wmret", Add(st.AllocBase, IntT(int64(st.AllocN))))
+			x.assumeHeapClosed(st, wm.S, kinds, true)
 		}
 	}()
 	// clock: a contracted callee may read the clock
@@ -910,4 +930,37 @@ func (x *Exec) boundReachable(st *State, v Val, depth int) {
 			x.boundReachable(st, fv, depth+1)
 		}
 	}
+}
+
+// pbGetter: protobuf-generated getters (x *T) GetF() are nil-safe reads of field F.
+func (x *Exec) pbGetter(st *State, fn *ssa.Function, cc *CallCtx) ([]Outcome, bool) {
+	name := fn.Name()
+	if !strings.HasPrefix(name, "Get") || fn.Signature.Recv() == nil || cc.ResT.Len() != 1 || len(cc.Args) != 1 {
+		return nil, false
+	}
+	pt, su, ok := derefStruct(fn.Signature.Recv().Type())
+	if !ok {
+		return nil, false
+	}
+	fname := strings.TrimPrefix(name, "Get")
+	for i := 0; i < su.NumFields(); i++ {
+		f := su.Field(i)
+		if f.Name() != fname || !types.Identical(f.Type(), cc.ResT.At(0).Type()) {
+			continue
+		}
+		recv := cc.Args[0]
+		v := x.loadAddrPure(st, &Addr{Prefix: fieldPrefix(pt, fname), Ref: recv.T, T: f.Type()})
+		zero := zeroVal(f.Type())
+		fa, fz := flatten(v), flatten(zero)
+		if len(fa) != len(fz) {
+			return nil, false
+		}
+		ts := make([]Term, len(fa))
+		for j := range fa {
+			ts[j] = Ite(Eq(recv.T, IntT(0)), fz[j], fa[j])
+		}
+		out, _ := unflatten(f.Type(), ts)
+		return one(st, out), true
+	}
+	return nil, false
 }
